@@ -426,6 +426,9 @@ def ensure_replay():
 
 def run_replay(rp):
     """Run a stored input against the REAL code. Returns {status: reproduced|not-reproduced|unavailable, ...}."""
+    if "input" in rp:  # an input found by the counterexample stage (bin/vcex.py): re-execute it on the real crates of the tree under check
+        import vcex
+        return vcex.replay_real(rp["kind"], rp["input"])
     if REPO != "/repo":
         return {"status": "unavailable (replay crate links /repo itself; VERIF_REPO points elsewhere)"}
     ok, err = ensure_replay()
